@@ -368,3 +368,15 @@ def r8(ctx):
 
 
 RULES.append(("C17.R8", "T4", "a response is a rejection when any of the three IIN2 rejection bits is set (shared with C16.R10)", r8))
+
+
+def r9(ctx):
+    """'start-up in order; a rejected or MALFORMED start-up poll is retried and keeps unsolicited gated': whether the integrity poll
+    succeeded is the READ acceptance test of the master (C15.R2: unparsable objects fail the task); whether an integrity poll is
+    configured at all is Classes::any, which consults class0 and the event classes (C14.R12). Shared code."""
+    import c15, c14
+    c15.r2(ctx)
+    c14.r12(ctx)
+
+
+RULES.append(("C17.R9", "T2/T4-total", "a malformed integrity reply fails the poll (C15.R2); Classes::any sees class 0 and the event classes (C14.R12)", r9))
